@@ -278,6 +278,13 @@ func (s *store) dispatchRequests() {
 				req.response <- s.update(req.username, req.password)
 			} else {
 				wdl.Printf("upgrade(local): upgrading '%s'", req.username)
+				// The upgrade has been queued by an earlier login. Since then the password might
+				// have been changed or the user removed/re-added - only re-hash the password if it
+				// is still the current one and the hash still needs the upgrade.
+				if ok, _, upgradeable, _, _ := s.dir.Authenticate(req.username, req.password); !ok || !upgradeable {
+					wdl.Printf("upgrade(local): skipping outdated upgrade request for '%s'", req.username)
+					continue
+				}
 				if resp := s.update(req.username, req.password); resp.err != nil {
 					wl.Printf("upgrade(local): failed for '%s': %v", req.username, resp.err)
 				} else {
